@@ -214,9 +214,11 @@ impl<'arena, 'input: 'arena> Lexer<'arena, 'input> {
         loop {
             let bytes = &self.src[self.pos..self.len];
 
-            // Find the next quote/escape OR newline sequence
+            // Find the next quote/escape OR newline sequence. A newline only matters when it
+            // comes first, so it is searched for up to the quote/escape only (searching the
+            // whole rest of the source for every literal is quadratic on a long line).
             let quote_or_escape = memchr2(quote, b'\\', bytes, 0);
-            let newline = memchr2(b'\n', b'\r', bytes, 0);
+            let newline = memchr2(b'\n', b'\r', &bytes[..quote_or_escape], 0);
 
             // Is the first occurrence a newline ?
             if newline < quote_or_escape {
@@ -268,10 +270,10 @@ impl<'arena, 'input: 'arena> Lexer<'arena, 'input> {
             } else if c == b'\\' {
                 has_escape = true;
                 if buffer.is_empty() {
-                    // The literal ends at the latest where its line ends: reserve for that
-                    // much, not for the whole rest of the source (which made the memory
-                    // needed by a file of escaped strings quadratic in its size).
-                    buffer.reserve_exact((self.pos - beg) + newline);
+                    // Reserve for what is copied now, not for the whole rest of the source
+                    // (which made the memory needed by a file of escaped strings quadratic
+                    // in its size); the buffer grows as the literal is scanned.
+                    buffer.reserve(pos - beg + 1);
                     // SAFETY: beg..pos is valid UTF-8 because we only process valid string content
                     let string = unsafe { str::from_utf8_unchecked(&self.src[beg..pos]) };
                     buffer.push_str(string);
